@@ -37,6 +37,9 @@ func untrackCommand(cmd *cobra.Command, args []string) {
 	defer attributesFile.Close()
 
 	scanner := bufio.NewScanner(attributes)
+	// No line may be too long for the scanner: it would end the loop
+	// and drop the rest of the file.
+	scanner.Buffer(nil, len(data)+1)
 
 	// Iterate through each line of the attributes file and rewrite it,
 	// if the path was meant to be untracked, omit it, and print a message instead.
